@@ -111,12 +111,18 @@ JOBS = [
         replace=['Math::sincosd', 'Math::atan2d', ('Math::AngNormalize', dict(ghost=False)), 'Geodesic::SinCosSeries', 'GeodesicLineExact::GenPosition'],
         inline=['GeodesicLine::Init'], sat='cadical', description='position on a geodesic line (series): output-mask frame, NaN rule, ranges'),
     # ---- polygon area (C08)
-    Job('PolygonArea.transitdirect', 'PolygonAreaT::transitdirect', ['C08', 'C14'], timeout=300, description='crossing parity for unrolled (direct) edges'),
+    Job('PolygonArea.transitdirect', 'PolygonAreaT::transitdirect', ['C08', 'C14'], timeout=900, sat='cadical', description='crossing parity for unrolled (direct) edges'),
+    Job('PolygonArea.transitdirect.full', 'PolygonAreaT::transitdirect', ['C08'], timeout=14000, sat='cadical', tier='thorough', defines=['TD_MAXTURNS=1073741824'],
+        description='crossing parity for direct edges, |lon| < 2^30 turns'),
     Job('PolygonArea.transit', 'PolygonAreaT::transit', ['C08', 'C13', 'C14'], timeout=600, sat='cadical',
         inline=[('Math::AngDiff', dict(arity=2, cname='Math_AngDiff2')), ('Math::AngDiff', dict(arity=3, select=r'T& ?e')), 'Math::sum', 'Math::AngNormalize'],
         description='prime-meridian crossing of the shortest edge (inverse edges)'),
     Job('PolygonArea.AreaReduce', 'PolygonAreaT::AreaReduce', ['C08', 'C14'], timeout=300, inline=[('PolygonAreaT::Remainder', dict(select=r'real'))],
         description='reduction of the accumulated area modulo the ellipsoid area; sign / reverse conventions'),
+    # ---- geoid (C20)
+    Job('Geoid.height', 'Geoid::height', ['C20', 'C13', 'C14'], timeout=600, unwind=13, sat='cadical',
+        replace=[('Geoid::rawval', dict(may_throw=True)), ('Math::AngNormalize', dict(ghost=False)), 'Math::LatFix'],
+        description='geoid height: raster indices in range, NaN, frame of the thread-safe mode'),
 ]
 
 
@@ -137,10 +143,21 @@ NOT_APPLICABLE = {
     'C02': NUMERIC, 'C03': NUMERIC, 'C06': NUMERIC, 'C11': NUMERIC, 'C15': NUMERIC,
     'C17': NUMERIC + '; NearestNeighbor is a C++ template over user types that neither the C extraction nor the CBMC C++ front end can take',
  'C07': NOT_BUILT,  'C09': NOT_BUILT,
-      'C19': NOT_BUILT, 'C20': NOT_BUILT,
+      'C19': NOT_BUILT, 
 }
 
 PROPS = {
+    'C20': dict(
+        level='proof',
+        level_text='Geoid::height for every position and every header satisfying the constructor checks: all raster indices passed to the reader are inside the '
+                   'range its wrap-around / pole reflection handles, no float->int overflow, NaN in gives NaN out, a thread-safe geoid writes no member; and the '
+                   'history-independence lemma: two objects that differ only in their (consistent) cell cache return bit-identical heights.',
+        level_note='Trusted: as C18; the raster reader rawval is an ASSUMED deterministic function of its indices (iostream / vector<vector<>> are outside the extraction); '
+                   'the class invariant (width even, height odd, resolutions) is assumed from the constructor. Interpolation identities, CacheArea/CacheAll contents, PGM header parsing are not decided.',
+        design_ref='DESIGN.md section 5, C20',
+        not_decided=['bilinear / cubic interpolation identities (node values, linearity along edges, continuity)', 'area cache contents equal the file (CacheArea/CacheAll)',
+                     'PGM header parsing and format rejection (iostream)', 'ConvertHeight round trip'],
+    ),
     'C08': dict(
         level='proof',
         level_text='The discrete mechanisms of the polygon classes: the crossing-parity function for direct edges equals the parity of floor(lon2/360) - floor(lon1/360) '
@@ -149,6 +166,7 @@ PROPS = {
         level_note='Trusted: as C18 (exact remainder model for 360 and 720). That S12 sums to the area, invariance under vertex rotation / longitude shifts, additivity, and the '
                    'AddPoint/TestPoint state machine over the Accumulator are not decided.',
         design_ref='DESIGN.md section 5, C08',
+        bounded=['transitdirect parity clause: longitudes within +-4096 turns (1.47e6 degrees) in the quick tier (a restriction of the clause, all doubles in that range); +-2^30 turns in the thorough tier'],
         not_decided=['perimeter and area are those of the polygon (numeric: sums of inverse/direct solutions)', 'TestPoint/TestEdge equal AddPoint/AddEdge + Compute (state machine over Accumulator: not extracted)',
                      'invariances (first vertex, longitude shifts, cutting along a diagonal)'],
     ),
